@@ -53,7 +53,8 @@ def pattern_call(draw):
         return ['match', 'startswith', None, draw(st.sampled_from(['HOLIDAY', 'HOLIDAY INN', 'HOLIDAY INN PAYDAY']))]
     if fn == 'anyof':
         return ['anyof', [draw(st.sampled_from(TEXTS))] + draw(st.lists(st.sampled_from(TEXTS + NOT_IN), max_size=2))]
-    return ['match', fn, None, draw(st.sampled_from(TEXTS))]
+    # naming the description explicitly is the same condition (and `description` is no constraint kind)
+    return ['match', fn, draw(st.sampled_from([None, None, None, ['name', 'description'], ['name', 'Description'], ['txn', 'description']])), draw(st.sampled_from(TEXTS))]
 
 
 def respell(e, style):
